@@ -352,9 +352,9 @@ Qed.
 Lemma ex_printf w v l : Inv w -> pre (abs w) (OPrintf v l) = true -> refines_op w (OPrintf v l).
 Proof.
   intros I P. cbn [pre] in P. split_pre. destruct (has_nth _ _ H) as (h0 & Hh).
-  destruct (printf_ok w v h0 l I Hh) as (w' & E & R).
+  destruct (printf_m_ok w v h0 (fun _ => Ok l) l I Hh) as (w' & E & R); [reflexivity|].
   eapply (fin_upd w _ v _ w' _ _).
-  - exact E.
+  - cbn [exec]. exact E.
   - eapply nth_error_lt; eauto.
   - exact R.
   - reflexivity.
@@ -461,7 +461,7 @@ Lemma ex_trim w v chars : Inv w -> pre (abs w) (OTrim v chars) = true -> refines
 Proof.
   intros I P. cbn [pre] in P. split_pre. destruct (has_nth _ _ H) as (hv & Hv).
   set (bs := valof (abs w) v) in *.
-  assert (NF : nulfree bs = true) by (apply cbytes_nulfree; auto).
+  assert (NF : nulfree chars = true) by (apply cbytes_nulfree; auto).
   pose proof (trim_mirror chars bs NF) as TM.
   assert (SAME : s_trim chars bs = bs -> refines_op w (OTrim v chars) \/ True) by auto.
   cbn [exec]. unfold refines_op. cbn [exec]. rewrite (var_bytes_abs _ _ I H). cbn [bind]. fold bs.
@@ -543,55 +543,39 @@ Qed.
 
 Lemma ex_compare w v u : Inv w -> pre (abs w) (OCompare v u) = true -> refines_op w (OCompare v u).
 Proof.
-  intros I P. cbn [pre] in P. split_pre. unfold refines_op.
-  two_views w v u I.
-  rewrite m_compare_spec by (auto; lia).
-  eexists _, _. split; [reflexivity|]. cbn [spec_exec fst snd]. auto.
+  intros I P. cbn [pre] in P. split_pre.
+  apply (fin_same w _ w (RInt (lexcmp (valof (abs w) v) (valof (abs w) u)))); auto.
+  cbn [exec]. rewrite !(var_bytes_abs _ _ I) by assumption. cbn [bind]. rewrite m_cmp_spec. reflexivity.
 Qed.
 
 Lemma ex_compare_n w v u n : Inv w -> pre (abs w) (OCompareN v u n) = true -> refines_op w (OCompareN v u n).
 Proof.
-  intros I P. cbn [pre] in P. split_pre. unfold refines_op.
-  two_views w v u I.
-  rewrite m_compare_n_spec by auto.
-  eexists _, _. split; [reflexivity|]. cbn [spec_exec fst snd]. auto.
+  intros I P. cbn [pre] in P. split_pre.
+  apply (fin_same w _ w (RInt (lexcmp (firstn n (valof (abs w) v)) (firstn n (valof (abs w) u))))); auto.
+  cbn [exec]. rewrite !(var_bytes_abs _ _ I) by assumption. cbn [bind]. rewrite m_cmp_spec. reflexivity.
 Qed.
 
 Lemma ex_compare_ic w v u : Inv w -> pre (abs w) (OCompareIC v u) = true -> refines_op w (OCompareIC v u).
 Proof.
-  intros I P. cbn [pre] in P. split_pre. unfold refines_op.
-  two_views w v u I.
-  rewrite !map_lowt.
-  rewrite <- (map_length lower (valof (abs w) v)).
-  rewrite m_compare_spec by (auto using cbytes_map_lower; lia).
-  eexists _, _. split; [reflexivity|]. cbn [spec_exec fst snd]. auto.
+  intros I P. cbn [pre] in P. split_pre.
+  apply (fin_same w _ w (RInt (lexcmp (map lower (valof (abs w) v)) (map lower (valof (abs w) u))))); auto.
+  cbn [exec]. rewrite !(var_bytes_abs _ _ I) by assumption. cbn [bind]. rewrite m_cmp_spec, !map_lowt. reflexivity.
 Qed.
 
 Lemma ex_compare_icn w v u n : Inv w -> pre (abs w) (OCompareICN v u n) = true -> refines_op w (OCompareICN v u n).
 Proof.
-  intros I P. cbn [pre] in P. split_pre. unfold refines_op.
-  two_views w v u I.
-  rewrite !map_lowt.
-  rewrite m_compare_n_spec by auto using cbytes_map_lower.
-  eexists _, _. split; [reflexivity|]. cbn [spec_exec fst snd]. rewrite <- !firstn_map. auto.
-Qed.
-
-Lemma list_eqb_map_len (f : Z -> Z) (a b : list Z) : length a <> length b -> list_eqb (map f a) (map f b) = false.
-Proof.
-  intros H. destruct (list_eqb (map f a) (map f b)) eqn:E; auto.
-  apply list_eqb_length in E. rewrite !map_length in E. contradiction.
+  intros I P. cbn [pre] in P. split_pre.
+  apply (fin_same w _ w (RInt (lexcmp (map lower (firstn n (valof (abs w) v))) (map lower (firstn n (valof (abs w) u)))))); auto.
+  cbn [exec]. rewrite !(var_bytes_abs _ _ I) by assumption. cbn [bind]. rewrite m_cmp_spec, !map_lowt. reflexivity.
 Qed.
 
 Lemma ex_equals_ic w v u : Inv w -> pre (abs w) (OEqualsIC v u) = true -> refines_op w (OEqualsIC v u).
 Proof.
-  intros I P. cbn [pre] in P. split_pre. unfold refines_op. cbn [exec].
-  rewrite !(var_bytes_abs _ _ I) by assumption. cbn [bind].
-  destruct (length (valof (abs w) v) =? length (valof (abs w) u)) eqn:G; cbn [negb].
-  - two_views w v u I.
-    rewrite equals_ic_mirror by auto.
-    eexists _, _. split; [reflexivity|]. cbn [spec_exec fst snd]. auto.
-  - apply Nat.eqb_neq in G. exists w, (RInt 0%Z). split; [reflexivity|]. split; [exact I|].
-    cbn [spec_exec fst snd]. rewrite (list_eqb_map_len lower _ _ G). auto.
+  intros I P. cbn [pre] in P. split_pre.
+  apply (fin_same w _ w (RInt (b2z (list_eqb (map lower (valof (abs w) v)) (map lower (valof (abs w) u)))))); auto.
+  cbn [exec]. rewrite !(var_bytes_abs _ _ I) by assumption. cbn [bind].
+  rewrite m_cmp_eqb, !map_lowt.
+  rewrite <- (map_length lower (valof (abs w) v)), <- (map_length lower (valof (abs w) u)), list_eqb_len. reflexivity.
 Qed.
 
 Lemma ex_find_c w v c : Inv w -> pre (abs w) (OFindC v c) = true -> refines_op w (OFindC v c).
@@ -713,4 +697,44 @@ Proof.
   intros I P. cbn [pre] in P.
   apply (fin_same w _ w (RInt (Z.of_nat (length (valof (abs w) v))))); auto.
   cbn [exec]. rewrite (var_len_abs _ _ I P). reflexivity.
+Qed.
+
+(* ---- arguments that point into the own text ---- *)
+Lemma map_slice {A B} (f : A -> B) l off n : map f (slice l off n) = slice (map f l) off n.
+Proof. unfold slice. rewrite <- firstn_map, <- skipn_map. reflexivity. Qed.
+
+Lemma ex_append_own w v off len : Inv w -> pre (abs w) (OAppendOwn v off len) = true -> refines_op w (OAppendOwn v off len).
+Proof.
+  intros I P. cbn [pre] in P. split_pre.
+  match goal with H : (off + len <=? _) = true |- _ => apply Nat.leb_le in H; rename H into HB end.
+  destruct (cstr_abs w v I H) as (w1 & E1 & I1 & A1 & _).
+  destruct (has_nth _ _ (has_via _ _ _ A1 H)) as (h1 & Hh1).
+  rewrite <- A1, (valof_cells _ _ _ Hh1), map_length in HB.
+  destruct (append_own_ok w1 v h1 off len I1 Hh1 HB) as (w' & E & R).
+  eapply (fin_upd_via w _ w1 v _ w' _ RNone).
+  - cbn [exec]. rewrite E1. cbn [bind]. rewrite E. reflexivity.
+  - exact A1.
+  - eapply nth_error_lt; eauto.
+  - exact R.
+  - reflexivity.
+  - rewrite map_app, map_slice, <- A1, (valof_cells _ _ _ Hh1). reflexivity.
+Qed.
+
+Lemma ex_printf_self w v a b : Inv w -> pre (abs w) (OPrintfSelf v a b) = true -> refines_op w (OPrintfSelf v a b).
+Proof.
+  intros I P. cbn [pre] in P. split_pre.
+  destruct (cstr_abs w v I H) as (w1 & E1 & I1 & A1 & _).
+  destruct (has_nth _ _ (has_via _ _ _ A1 H)) as (h1 & Hh1).
+  destruct (printf_m_ok w1 v h1
+              (fun w' => do cs <- d_read w' h1 0 (length (h_cells w1 h1)); Ok (a ++ map cval cs ++ b))
+              (a ++ valof (abs w) v ++ b) I1 Hh1) as (w' & E & R).
+  { intros w' (_ & RD). rewrite RD. cbn [bind]. rewrite <- A1, (valof_cells _ _ _ Hh1). reflexivity. }
+  eapply (fin_upd_via w _ w1 v _ w' _ _).
+  - cbn [exec]. rewrite E1. cbn [bind]. rewrite (get_var_ok _ _ _ Hh1). cbn [bind].
+    rewrite (d_len_ok _ _ _ I1 Hh1). cbn [bind]. exact E.
+  - exact A1.
+  - eapply nth_error_lt; eauto.
+  - exact R.
+  - reflexivity.
+  - apply map_cval_some.
 Qed.
